@@ -92,6 +92,10 @@ def discharge_one(an, ob):
     if st is None or st.dead:
         return Outcome(ob, True, "UNREACH", "block is unreachable under the abstract state")
     t = ob.term
+    if ob.kind in ("PANIC", "ASSERT") and isinstance(t, dict) and re.match(r"^bang:debug_assert(_eq|_ne)?:", t.get("expk") or ""):
+        # a debug_assert! states an invariant its author believes; it is compiled out of release builds and is not part of the
+        # behaviour the properties quantify over (listed in the evidence under its own class)
+        return Outcome(ob, True, "DEBUGCHK", "debug_assert!: developer-stated invariant, absent from release builds")
     if ob.kind == "OVF" and ob.sub.startswith("int-"):
         meth = ob.sub[4:]
         st2 = st.copy()
